@@ -736,12 +736,11 @@ func (c *Codec) DecodeStream(reader io.Reader) (framer.Frame, error) {
 			return errors.Newf("unknown channel key: %v", key)
 		}
 		s.DataType = dataType
-		if dataType.IsVariable() {
-			s.Data = make([]byte, dataLenOrSize)
-		} else {
-			s.Data = make([]byte, dataType.Density().Size(int64(dataLenOrSize)))
+		size := int64(dataLenOrSize)
+		if !dataType.IsVariable() {
+			size = int64(dataType.Density().Size(int64(dataLenOrSize)))
 		}
-		if _, err = c.reader.Read(s.Data); err != nil {
+		if s.Data, err = c.readSeriesData(reader, size); err != nil {
 			return err
 		}
 		if !fgs.equalTimeRanges {
@@ -782,6 +781,40 @@ func (c *Codec) DecodeStream(reader io.Reader) (framer.Frame, error) {
 			return framer.Frame{}, err
 		}
 	}
+}
+
+// maxUncheckedAlloc is the largest buffer readSeriesData allocates up front when the
+// source cannot report how many bytes it still holds.
+const maxUncheckedAlloc = 1 << 12
+
+// readSeriesData reads size bytes of series data. The size comes from the wire, so it is
+// verified against the remaining input before anything is allocated: when the source
+// reports its remaining length (bytes.Reader, bytes.Buffer, ...) an oversized claim is
+// rejected immediately; otherwise the buffer grows as data actually arrives.
+func (c *Codec) readSeriesData(src io.Reader, size int64) ([]byte, error) {
+	if l, ok := src.(interface{ Len() int }); ok {
+		if rem := int64(l.Len()); size > rem {
+			return nil, errors.Wrapf(
+				io.ErrUnexpectedEOF,
+				"[framer.codec] - series claims %d bytes but only %d remain", size, rem,
+			)
+		}
+	} else if size > maxUncheckedAlloc {
+		data := make([]byte, 0, maxUncheckedAlloc)
+		for int64(len(data)) < size {
+			n := int(min(size-int64(len(data)), int64(max(len(data), maxUncheckedAlloc))))
+			data = slices.Grow(data, n)
+			m, err := c.reader.Read(data[len(data) : len(data)+n])
+			data = data[:len(data)+m]
+			if err != nil {
+				return nil, err
+			}
+		}
+		return data, nil
+	}
+	data := make([]byte, size)
+	_, err := c.reader.Read(data)
+	return data, err
 }
 
 // readTimeRange reads a time range using the codec's reader.
